@@ -1,11 +1,14 @@
 INIT Init
 NEXT Next
 INVARIANT Inv_AncestorsAreClosure
-INVARIANT Inv_AncestorsNoDup
+INVARIANT Inv_AncestorsNoDup__multiple_inheritance_paths
+INVARIANT Inv_AncestorsNoDup__none
 INVARIANT Inv_DescendantsAreInverse
-INVARIANT Inv_DescendantsNoDup
+INVARIANT Inv_DescendantsNoDup__multiple_inheritance_paths
+INVARIANT Inv_DescendantsNoDup__none
 INVARIANT Inv_ConcreteDescendantsRight
-INVARIANT Inv_ConcreteDescendantsNoDup
+INVARIANT Inv_ConcreteDescendantsNoDup__multiple_inheritance_paths
+INVARIANT Inv_ConcreteDescendantsNoDup__none
 INVARIANT Inv_PropertiesAreHeritage
 INVARIANT Inv_PropertiesOrdered
 INVARIANT Inv_InvariantsAreHeritage
@@ -13,7 +16,9 @@ INVARIANT Inv_InvariantsOrdered
 INVARIANT Inv_MethodsAreHeritage
 INVARIANT Inv_MethodsOrdered
 INVARIANT Inv_CtorAssignsEvery
-INVARIANT Inv_CtorAssignsAtMostOnce
+INVARIANT Inv_CtorAssignsAtMostOnce__written_twice
+INVARIANT Inv_CtorAssignsAtMostOnce__multiple_inheritance_paths
+INVARIANT Inv_CtorAssignsAtMostOnce__none
 INVARIANT Inv_CtorNoSuperCalls
 INVARIANT Inv_InterfacesExact
 INVARIANT Inv_Topological
